@@ -207,6 +207,13 @@ def binop(it, op, a, b):
             s, n = (a, b) if isinstance(b, SInt) else (b, a)
             nc = n.concrete()
             if nc is None:
+                sc = s.concrete() if isinstance(s, (SStr, SBytes)) else None
+                if sc is not None and len(sc) == 1:
+                    # one-character string repeated a symbolic number of times: exact characterisation
+                    ch = sc if isinstance(sc, str) else chr(sc[0])
+                    r = it.fresh("bytes" if isinstance(s, SBytes) else "str", "repeat")
+                    it.ex.assume(z3.And(z3.InRe(r.t, z3.Star(z3.Re(z3.StringVal(ch)))), z3.Length(r.t) == z3.If(n.t > 0, n.t, 0)))
+                    return r
                 raise Unsupported("symbolic repetition")
             if isinstance(s, (SStr, SBytes)):
                 r = type(s)(z3.StringVal(""))
